@@ -235,7 +235,26 @@ fn check_config(value: &str, dirs: &[&str], vfs: &BTreeMap<String, FileState>, l
     }
 }
 
+fn long_values() -> &'static Vec<String> {
+    static L: std::sync::OnceLock<Vec<String>> = std::sync::OnceLock::new();
+    L.get_or_init(|| {
+        let mut v = vec![];
+        for n in [255usize, 256, 1023, 4088, 4090, 4092, 4096, 5000, 70000] {
+            v.push("Z".repeat(n));
+            v.push(format!(":{}", "y".repeat(n)));
+        }
+        v.push(format!("/{}", "a/".repeat(3000)));
+        v
+    })
+}
+
 pub fn values() -> Vec<&'static str> {
+    let mut v = base_values();
+    v.extend(long_values().iter().map(|s| s.as_str()));
+    v
+}
+
+fn base_values() -> Vec<&'static str> {
     vec![
         "", "localtime", ":", ":UTC", ":/abs/f", "/abs/f", "UTC", "UTC0", " UTC0 ", "\tUTC0\n", "EST5EDT", "EST5EDT,M3.2.0,M11.1.0", "rel/f", "localtime ", ":localtime", " :UTC", "::UTC", "bad string", " localtime", "localtime\n", ": UTC", "/", ":/", "<+03>-3", " ", "\n", "EST5 ", ":EST5", "Europe/Paris", "../etc/passwd", ":/etc/localtime", "/etc/localtime",
     ]
